@@ -263,6 +263,56 @@ reveal_type(A().m)
 '''
 
 
+def gen_det_module(rng: random.Random, idx: int) -> tuple[str, str]:
+    """A module made of the constructs whose serialised form comes from a set or a dict (iteration order must not
+    reach the bytes): __slots__ (2–6 names, inherited, slots dataclass), abstract attributes, protocol members,
+    TypedDict required/readonly keys, enum members, __all__, several __future__ flags, dataclass metadata,
+    several type variables, deletable attributes."""
+    def names(k: int, prefix: str) -> list[str]:
+        out: list[str] = []
+        while len(out) < k:
+            n = prefix + "".join(rng.choice("abcdefghijklmnopqrstuvwxyz") for _ in range(rng.randint(1, 9)))
+            if n not in out:
+                out.append(n)
+        return out
+    L = ["from __future__ import annotations, division, generator_stop",
+         "import abc, enum, dataclasses",
+         "from typing import Generic, NamedTuple, Protocol, TypedDict, TypeVar, Required, NotRequired, ClassVar, Final",
+         "from typing_extensions import ReadOnly",
+         "A = TypeVar('A'); B = TypeVar('B'); C = TypeVar('C'); D = TypeVar('D')", ""]
+    exported: list[str] = []
+    for c in range(rng.randint(3, 5)):
+        k = rng.randint(2, 6)
+        sl = names(k, "s")
+        L.append(f"class Slots{c}:\n    __slots__ = ({', '.join(repr(x) for x in sl)},)")
+        more = names(rng.randint(2, 4), "t")
+        L.append(f"class SlotsSub{c}(Slots{c}):\n    __slots__ = ({', '.join(repr(x) for x in more)},)")
+        exported += [f"Slots{c}", f"SlotsSub{c}"]
+    fields = names(rng.randint(3, 6), "f")
+    L.append("@dataclasses.dataclass(slots=True)\nclass SlotDC:\n" + "\n".join(f"    {f}: int = 0" for f in fields))
+    ab = names(rng.randint(3, 6), "m")
+    L.append("class Abs(abc.ABC):\n" + "\n".join(f"    @abc.abstractmethod\n    def {m}(self) -> int: ..." for m in ab)
+             + "\n    @property\n    @abc.abstractmethod\n    def aprop(self) -> int: ...")
+    L.append("class AbsChild(Abs):\n    def " + ab[0] + "(self) -> int: return 1")
+    pm = names(rng.randint(3, 6), "p")
+    L.append("class Proto(Protocol):\n" + "\n".join(f"    def {m}(self) -> int: ..." for m in pm) + "\n    attr: int")
+    keys = names(rng.randint(4, 7), "k")
+    L.append("class TD(TypedDict, total=False):\n" + "\n".join(
+        f"    {k}: {rng.choice(['Required[int]', 'NotRequired[str]', 'ReadOnly[bytes]', 'Required[ReadOnly[float]]', 'int'])}" for k in keys))
+    em = names(rng.randint(3, 7), "E")
+    L.append("class En(enum.Enum):\n" + "\n".join(f"    {m.upper()} = {i}" for i, m in enumerate(em)))
+    L.append("class Gen4(Generic[A, B, C, D]):\n    def m(self, a: A, b: B, c: C, d: D) -> tuple[A, B, C, D]: ...")
+    L.append("class Del:\n    __deletable__ = " + repr(names(3, "d")) + "\n    def __init__(self) -> None:\n        self.x = 1")
+    L.append("class NT(NamedTuple):\n" + "\n".join(f"    {f}: int" for f in names(3, "n")))
+    hidden = names(3, "h")
+    for h in hidden:
+        L.append(f"{h} = 1")
+    exported += ["SlotDC", "Abs", "Proto", "TD", "En", "Gen4"]
+    rng.shuffle(exported)
+    L.append("__all__ = " + repr(exported))
+    return f"c11_det{idx}", "\n".join(L) + "\n"
+
+
 def top_names(src: str) -> list[str]:
     import ast
     out: list[str] = []
